@@ -892,6 +892,26 @@ fn extract<'tcx>(tcx: TyCtxt<'tcx>, out: &str) {
                             f.push(("v", J::Int(val)));
                         }
                     }
+                    // a `&str` constant written as one string literal (CORE_SOURCE: the Yarel text the bootstrap compiles) carries its text
+                    if let ty::Ref(_, inner, _) = cty.kind() {
+                        if inner.is_str() {
+                            if let Some(body) = tcx.hir_maybe_body_owned_by(ldid) {
+                                let mut e = body.value;
+                                loop {
+                                    match &e.kind {
+                                        hir::ExprKind::Block(b, _) if b.stmts.is_empty() && b.expr.is_some() => e = b.expr.unwrap(),
+                                        hir::ExprKind::DropTemps(x) => e = x,
+                                        _ => break,
+                                    }
+                                }
+                                if let hir::ExprKind::Lit(l) = &e.kind {
+                                    if let rustc_ast::LitKind::Str(sym, _) = l.node {
+                                        f.push(("str", J::s(sym.as_str().to_string())));
+                                    }
+                                }
+                            }
+                        }
+                    }
                     consts.push(J::obj(f));
                     if let ty::Array(..) = cty.kind() {
                         if let Some(body) = tcx.hir_maybe_body_owned_by(ldid) {
